@@ -118,6 +118,7 @@ pub struct ElementSpec { pub sub_elements: (u16, u16), pub sub_element_ver: u16,
 
 #[derive(Clone, Copy)]
 pub struct GroupType(pub u16);
+%(version_enum)s
 pub struct AttrDefinitionsIter { pub type_id: u16, pub pos: usize }
 pub struct SubelemDefinitionsIter { pub type_id_stack: Vec<u16>, pub indices: Vec<usize> }
 
@@ -508,6 +509,7 @@ def r_forslice():
 
 
 IMPL_GT = r'impl GroupType'
+IMPL_AV = r'impl AutosarVersion'
 IMPL_AI = r'impl Iterator for AttrDefinitionsIter'
 IMPL_SI = r'impl Iterator for SubelemDefinitionsIter'
 
@@ -528,6 +530,7 @@ T = 'self.typ < n_dt()'
 def fns(sz):
     ndt = sz['DATATYPES'][1]
     out = [
+        FnSpec('compatible', F, impl=IMPL_AV, ret='r', ensures=['r == (version_mask & (*self as u32) != 0)']),
         FnSpec('new', F, impl=IMPL_ET, ret='r', requires=['def < n_el()'], ensures=['r == et_of(def)', 'et_ok(r)'],
                proofs=[dict(at='body_start', text='proof { axiom_tables(); }')]),
         FnSpec('get_sub_elements', F, impl=IMPL_ET, ret='r', requires=['etype < n_dt()'], ensures=['r@ =~= sub_of(etype as int)'],
@@ -608,6 +611,14 @@ def fns(sz):
                ensures=['match r { Some(s) => t_dt(self.typ as int).character_data matches Some(c) && *s == t_cd(c as int), None => t_dt(self.typ as int).character_data is None }'],
                proofs=[dict(at='body_start', text='proof { axiom_tables(); }')]),
         FnSpec('is_named', F, impl=IMPL_ET, ret='r', requires=[T], ensures=['r == sn_mask(self.typ as int).is_some()']),
+        FnSpec('is_named_in_version', F, impl=IMPL_ET, ret='r', requires=[T],
+               body_sub=[(r'self\.short_name_version_mask\(\)\s*\.is_some_and\(\|ver_mask\| version\.compatible\(ver_mask\)\)',
+                          lambda m: '(match self.short_name_version_mask() { Some(ver_mask) => version.compatible(ver_mask), None => false })', 'R41')],
+               ensures=['r == (sn_mask(self.typ as int) matches Some(m) && m & (version as u32) != 0)']),
+        FnSpec('is_ordered', F, impl=IMPL_ET, ret='r', sig_sub=[(r'pub const fn', 'pub fn')], requires=['self.def < n_el()'], ensures=['r == t_el(self.def as int).ordered']),
+        FnSpec('splittable', F, impl=IMPL_ET, ret='r', sig_sub=[(r'pub const fn', 'pub fn')], requires=['self.def < n_el()'], ensures=['r == t_el(self.def as int).splittable']),
+        FnSpec('splittable_in', F, impl=IMPL_ET, ret='r', sig_sub=[(r'pub const fn', 'pub fn')], requires=['self.def < n_el()'], ensures=['r == (t_el(self.def as int).splittable & (version as u32) != 0)']),
+        FnSpec('std_restriction', F, impl=IMPL_ET, ret='r', sig_sub=[(r'pub const fn', 'pub fn')], requires=['self.def < n_el()'], ensures=['r == t_el(self.def as int).restrict_std']),
         FnSpec('short_name_version_mask', F, impl=IMPL_ET, ret='r', sig_sub=[(r'pub\(crate\) fn', 'pub fn')], requires=[T], ensures=['r == sn_mask(self.typ as int)'],
                proofs=[dict(at='body_start', text='proof { axiom_tables(); }')]),
         FnSpec('is_ref', F, impl=IMPL_ET, ret='r', requires=[T], ensures=['r == (t_dt(self.typ as int).character_data == Some(REFTYPE()))']),
@@ -674,8 +685,9 @@ def statics(sz):
 def make_unit(repo_dir):
     check_decls(repo_dir)
     sz = table_sizes(repo_dir)
-    spec = TYPES % dict(STATICS=statics(sz), REFERENCE_TYPE_IDX=sz['REFERENCE_TYPE_IDX'], **{k: v[1] for k, v in sz.items() if isinstance(v, tuple)})
-    u = Unit(name='lookups', prop='C18', spec=spec, fns=fns(sz), wrap={IMPL_ET: 'impl ElementType', IMPL_GT: 'impl GroupType', IMPL_AI: 'impl AttrDefinitionsIter', IMPL_SI: 'impl SubelemDefinitionsIter'},
+    from contracts import parser_funnel
+    spec = TYPES % dict(version_enum=parser_funnel.version_enum(repo_dir), STATICS=statics(sz), REFERENCE_TYPE_IDX=sz['REFERENCE_TYPE_IDX'], **{k: v[1] for k, v in sz.items() if isinstance(v, tuple)})
+    u = Unit(name='lookups', prop='C18', spec=spec, fns=fns(sz), wrap={IMPL_AV: 'impl AutosarVersion', IMPL_ET: 'impl ElementType', IMPL_GT: 'impl GroupType', IMPL_AI: 'impl AttrDefinitionsIter', IMPL_SI: 'impl SubelemDefinitionsIter'},
              dropped=['contents of the seven static tables (rule R8): they enter only through wf_tables(), discharged by the native evaluation `ground speclib tables_wf` on the real statics',
                       'ElementName / AttributeName / EnumItem are opaque stand-ins (only compared); CharacterDataSpec keeps the Enum variant only; doc comments, #[must_use], derives, the docstrings feature field'])
     u.sizes = sz
